@@ -282,7 +282,8 @@ func (pureEngine) Run(t *testing.T, batch string, tape *rt.Tape, runIdx uint64, 
 		}
 	}
 	rec.Probes["map_iterations_ordered"] = sitesDrawn
-	rec.SchedSig = fmt.Sprintf("%x", fnvString(fmt.Sprint(history)+fmt.Sprint(recipe)))
+	rj, _ := json.Marshal(recipe)
+	rec.SchedSig = fmt.Sprintf("%x", fnvString(fmt.Sprint(history)+string(rj)))
 	rec.LogHash = rec.SchedSig
 	rec.Nontrivial = sitesDrawn > 0
 	rec.Faults["map-order"] = sitesDrawn
@@ -579,7 +580,8 @@ func (compatEngine) Run(t *testing.T, batch string, tape *rt.Tape, runIdx uint64
 	}
 	sort.Strings(descs)
 	rec.Probes["map_iterations_ordered"] = sitesDrawn
-	rec.SchedSig = fmt.Sprintf("%x", fnvString(fmt.Sprint(descs)+fmt.Sprint(recipe)))
+	rj, _ := json.Marshal(recipe)
+	rec.SchedSig = fmt.Sprintf("%x", fnvString(fmt.Sprint(descs)+string(rj)))
 	rec.LogHash = rec.SchedSig
 	rec.Nontrivial = sitesDrawn > 0
 	rec.Faults["map-order"] = sitesDrawn
